@@ -42,6 +42,7 @@ def check(repo, run, tier):
     g(ct.unnamed_info, repo, run, 'C17.R2')
     g(r3, repo, run)
     g(unitrules.storage_receives_node, repo, run, 'C17.R1')
+    g(unitrules.get_node_after_mutation_table, repo, run, 'C17.R3')
     g.done()
 
 
